@@ -1,7 +1,7 @@
 #!/bin/bash
 # usage: tools_seed_scratch.sh <seed id> <property ids...>
 # Like tools_seed.sh but never touches /repo: the patch is applied in a scratch worktree under /tmp and the checks run
-# against it (VERIF_REPO). Not for C19 (the race recorder attributes positions under /repo).
+# against it (VERIF_REPO); works for C19 too (the race recorder takes the repository prefix from the load).
 export GOFLAGS=-mod=mod GOPROXY=off GOSUMDB=off GOTOOLCHAIN=local
 id=$1; shift
 wt=/tmp/seedrun_$id
